@@ -123,7 +123,7 @@ def run(ctx):
             ctx.samples.append({"N": N, "header": sc.hdr_str(H[len(H) // 2]), "model_accepts": H[len(H) // 2]["acc"], "property_allows": H[len(H) // 2]["ok"]})
     # stateful part: which peer set a header is verified against over multi-step histories (spec/SigEpoch.tla)
     ep = sc.epoch_phase(ctx, binary, "ledger", "SigEpoch_C32.cfg", "TestVerifSigEpochLedger", {"n": 4, "c": 1, "keys": 8},
-                        design_cfg="SigEpoch_C32d.cfg") if binary else None
+                        asfound_cfg="SigEpoch_C32d.cfg") if binary else None
     if ep:
         nexec += ep[0]
         per["epoch histories"] = {"histories": ep[0], "steps": ep[1], "unsound_accepts": ep[2]}
